@@ -3,11 +3,12 @@
    arguments; ocaml/C14/driver.ml instantiates them with table lookups.
    Run by lib/vcheck.py inside build/ocaml/C14. *)
 From Coq Require Import Extraction ExtrOcamlBasic.
-Require Import MW.Codec.Bip32.
+Require Import MW.Codec.Bip32 MW.Codec.Bip32Obj.
 Extraction "model.ml"
   new_master child neuter to_string from_string from_string_unfixed api_key api_pub derive_path
   derive_coin_type_key derive_account_key check_branch_keys
   spec_master spec_ckd spec_neuter spec_string spec_api_key spec_point_of spec_derive_path spec_parse
   spec_coin_type_key spec_account_key abs
+  run_script
   curve_n curve_p hardened_start min_seed_bytes max_seed_bytes serialized_key_len master_key
   hd_private_key_id hd_public_key_id max_coin_type max_account_num external_branch internal_branch.
